@@ -64,6 +64,7 @@ def errName : Err → String
   | .unicodeDecodeError => "UnicodeDecodeError"
   | .structError => "struct.error"
   | .invalidKey => "InvalidKey"
+  | .indexError => "IndexError"
 
 def showStr (s : PyStr) : String := String.ofList (s.map (fun c => Char.ofNat c.val))
 
@@ -99,12 +100,42 @@ def doVerify (p h sha kq kv : String) : Option String := do
     | .error _ => "q=none"
   pure (res ++ " " ++ q)
 
+/-! library-level ops: the hand-written models of base64 / utf-8 / split / struct / Scrypt.__init__
+against the real library functions -/
+
+def showExceptBytes : Except Err Bytes → String
+  | .ok b => "ok " ++ toHexD b
+  | .error e => "err:" ++ errName e
+
+def doLib (op arg : String) : Option String :=
+  match op with
+  | "b64d" => do let b ← fromHex arg; pure (showExceptBytes (b64decode b))
+  | "b64e" => do let b ← fromHex arg; pure ("ok " ++ toHexD (b64encode b))
+  | "utf8" => do let s ← parseCps arg; pure (showExceptBytes (encodeUtf8 s))
+  | "split" => do
+      let b ← fromHex arg
+      pure ("ok " ++ "|".intercalate ((splitOn colon b).map toHexD))
+  | "unpack" => do
+      let b ← fromHex arg
+      match unpackParams b with
+      | .ok P => pure s!"ok {P.N},{P.r},{P.p},{P.saltLen},{P.len}"
+      | .error e => pure ("err:" ++ errName e)
+  | "sinit" =>
+      match (arg.splitOn ",").map String.toNat? with
+      | [some n, some r, some p] =>
+        match scryptInit n r p with
+        | .ok () => some "ok"
+        | .error e => some ("err:" ++ errName e)
+      | _ => none
+  | _ => none
+
 def stepLine (st : Unit) (line : String) : Unit × List String :=
   match words line with
   | ["case", cid] => (st, ["#case " ++ cid])
   | ["end"] => (st, [])
   | ["hash", p, salt, sha, kq, kv] => (st, [(doHash p salt sha kq kv).getD "bad-op"])
   | ["verify", p, h, sha, kq, kv] => (st, [(doVerify p h sha kq kv).getD "bad-op"])
+  | ["lib", op, arg] => (st, [(doLib op arg).getD "bad-op"])
   | [] => (st, [])
   | _ => (st, ["bad-op"])
 
